@@ -119,6 +119,13 @@ func selected(o *Obl, tags map[string]bool) bool {
 
 // solveFunc discharges the obligations of one function result.
 func solveFunc(fr *FuncResult, opts SolveOpts) []*OblResult {
+	if strings.Contains(fr.Key, implSep+"(") {
+		// body of an implementation against the interface contract: only the interface clauses and the frame are
+		// claimed here; safety and callee preconditions belong to the method's own verification
+		opts.Select = func(o *Obl) bool {
+			return strings.HasPrefix(o.Name, "post:") || strings.HasPrefix(o.Name, "frame:") || strings.HasPrefix(o.Name, "inv-")
+		}
+	}
 	decls := fr.Decls.Text()
 	var insts []*instance
 	type job struct {
